@@ -63,11 +63,13 @@ NOT_APPLICABLE = {
 }
 PENDING = 'contracts not yet written in this round (planned claim, see DESIGN.md section 4); not claimed until a check exists'
 
+NOT_YET = set(os.environ.get('VERIF_NOT_YET', '').split(','))   # properties whose spec files exist but are not finished
+
 def main():
     props = [json.loads(l)['id'] for l in open(os.path.join(HERE, 'properties.jsonl'))]
     checks = []
     for pid in props:
-        if pid in CLAIMS and os.path.exists(os.path.join(HERE, 'contracts', pid + '.spec')):
+        if pid in CLAIMS and pid not in NOT_YET and os.path.exists(os.path.join(HERE, 'contracts', pid + '.spec')):
             c = CLAIMS[pid]
             checks.append({
                 'property_id': pid,
